@@ -39,7 +39,7 @@ BOUNDED = {
 
 def main():
     old = json.loads((ROOT / "known_findings.json").read_text())
-    keep = [k for k in old["findings"] if k["id"].startswith("C16-")]
+    keep = [k for k in old["findings"] if "program" not in k]
     fixed = old.get("fixed", [])
     out = list(keep)
     for kid, (props, what, expect) in BOUNDED.items():
